@@ -17,21 +17,20 @@
  *     are part of the model).  Limitation (trusted): the code never holds references to two different untracked slots at once.
  * (3) std::vector<awaiter*> (the wake-up buffer, its moved-to local copy): per-object length kept in the object's first word;
  *     content abstracted w.r.t. ONE arbitrary-but-fixed awaiter gh_AW: how often it was pushed since clear() (wb_cnt) and the
- *     index of its first occurrence (wb_idx).  Exact for "== gh_AW" while wb_cnt <= 1.  At most one of the vector objects is
- *     non-empty at any time (model precondition, asserted).
+ *     index of its first occurrence (wb_idx).  Exact for "== gh_AW" while wb_cnt <= 1; wb_cnt >= 2 = nothing known.  The
+ *     abstraction follows the content through the move constructor; a swap makes it "unknown" until the next clear().
  * (4) awaiter::resume(): abstract callee - counts resumptions (all: gh_n_res, of gh_AW: gh_n_res_AW), obligation "not while the
  *     queue mutex is held", returns an empty suspend point; hook PS_ON_RESUME(a) lets a unit add environment steps.
  * Preconditions of the real containers (operator[] in range, ...) are obligations (__CPROVER_assert) on the cocls code; every access
  * to a guarded container additionally carries the lock-discipline obligation "queue mutex held" (DESIGN 3.4) unless
  * PS_NO_LOCKCHK is defined by the unit. */
-QT *ps_q;                                         /* the queue whose member was accessed last (ASSIGNED by the model from the
-                                                     container address, for the unit's hooks; never pinned by an assumption:
-                                                     CBMC cannot dereference a pointer it only knows through an equality)  */
+QT *ps_q;                                         /* the queue object of the unit, for the unit's hooks.  ASSIGNED by the harness
+                                                     (CBMC cannot dereference a pointer it only knows through an assumed equality) */
 #define PS_Q_OF(member, p) ((QT *)((cv_i8 *)(p) - __builtin_offsetof(QT, member)))
 #ifndef PS_NO_LOCKCHK
-#define PS_LOCKCHK(member, p, what) do { ps_q = PS_Q_OF(member, p); __CPROVER_assert(LOCKED(&ps_q->_mx), what ": queue mutex held (lock discipline)"); } while (0)
+#define PS_LOCKCHK(member, p, what) __CPROVER_assert(LOCKED(&PS_Q_OF(member, p)->_mx), what ": queue mutex held (lock discipline)")
 #else
-#define PS_LOCKCHK(member, p, what) do { ps_q = PS_Q_OF(member, p); } while (0)
+#define PS_LOCKCHK(member, p, what)
 #endif
 #ifndef PS_ON_REG_OTHER
 #define PS_ON_REG_OTHER(i)
@@ -120,13 +119,14 @@ void _ZNSt6vectorIPN5cocls7awaiterESaIS2_EE5clearEv(WBV *v) { PS_LOCKCHK(_wakeup
 void _ZNSt6vectorIPN5cocls7awaiterESaIS2_EE9push_backERKS2_(WBV *v, AWT **x) {
   PS_LOCKCHK(_wakeup_buffer, v, "wake-up buffer: push_back");
   __CPROVER_assume(WB_LEN(v) < PS_BIG);
+  __CPROVER_assert(*x != 0, "only non-null awaiters enter the wake-up buffer");
   if (*x == gh_AW) { if (wb_cnt == 0) wb_idx = WB_LEN(v); wb_cnt++; }
   WB_LEN(v)++; gh_allocs += (nondet_bool() ? 1 : 0); }
 void _ZNSt6vectorIPN5cocls7awaiterESaIS2_EEC2EOS4_(WBV *dst, WBV *src) { WB_LEN(dst) = WB_LEN(src); WB_LEN(src) = 0; }
 void _ZNSt6vectorIPN5cocls7awaiterESaIS2_EED2Ev(WBV *v) { }
 void _ZSt4swapIPN5cocls7awaiterESaIS2_EEvRSt6vectorIT_T0_ES8_(WBV *a, WBV *b) {
-  __CPROVER_assert(WB_LEN(a) == 0 || WB_LEN(b) == 0, "model precondition: swap of wake-up vectors with at most one non-empty side");
-  cv_i64 t = WB_LEN(a); WB_LEN(a) = WB_LEN(b); WB_LEN(b) = t; }
+  cv_i64 t = WB_LEN(a); WB_LEN(a) = WB_LEN(b); WB_LEN(b) = t;
+  wb_cnt = 2; }                                   /* content abstraction no longer tied to one vector: "unknown" until the next clear() */
 AWT **_ZNSt6vectorIPN5cocls7awaiterESaIS2_EE5beginEv(WBV *v) { return PS_ENC(AWT *, 0); }
 AWT **_ZNSt6vectorIPN5cocls7awaiterESaIS2_EE3endEv(WBV *v) { return PS_ENC(AWT *, WB_LEN(v)); }
 cv_i1 _ZN9__gnu_cxxeqIPPN5cocls7awaiterESt6vectorIS3_SaIS3_EEEEbRKNS_17__normal_iteratorIT_T0_EESD_(WBIT *a, WBIT *b) {
@@ -134,7 +134,7 @@ cv_i1 _ZN9__gnu_cxxeqIPPN5cocls7awaiterESt6vectorIS3_SaIS3_EEEEbRKNS_17__normal_
 AWT **_ZNK9__gnu_cxx17__normal_iteratorIPPN5cocls7awaiterESt6vectorIS3_SaIS3_EEEdeEv(WBIT *it) {
   cv_i64 k = PS_DEC(it->_M_current); AWT *v;
   if (wb_cnt >= 1 && k == wb_idx) v = gh_AW;
-  else { v = (AWT *)nondet_ptr(); if (wb_cnt <= 1) __CPROVER_assume(v != gh_AW); }
+  else { v = (AWT *)nondet_ptr(); __CPROVER_assume(v != 0); if (wb_cnt <= 1) __CPROVER_assume(v != gh_AW); }
   wb_slot = v; return &wb_slot; }
 WBIT *_ZN9__gnu_cxx17__normal_iteratorIPPN5cocls7awaiterESt6vectorIS3_SaIS3_EEEppEv(WBIT *it) {
   it->_M_current = PS_ENC(AWT *, PS_DEC(it->_M_current) + 1); return it; }
